@@ -99,6 +99,11 @@ func (s *walletSessionManager) createSession(userID string, keyManager kms.KeyMa
 }
 
 func (s *walletSessionManager) getSession(authToken string) (*Session, error) {
+	// Look-up and re-arming of the expiry are one step with respect to closeSession: a session closed in between
+	// must not be put back.
+	s.mu.Lock()
+	defer s.mu.Unlock()
+
 	sess, err := s.gstore.Get(authToken)
 	if err != nil {
 		if errors.Is(err, gcache.KeyNotFoundError) {
